@@ -31,6 +31,10 @@ from rustscan import (AnchorLost, blank_comments, find_const, find_fn, find_impl
 
 # functions found to need contract-only mode in a previous pass of the same run (id -> reason)
 DEGRADED_IDS = {}
+# functions whose extracted body the Verus front end rejected in a previous pass of the same run
+# (a construct outside the rule set, typically introduced by a change): emitted as external_body,
+# decided by a pairing Kani harness or undecided (id -> reason)
+UNREADABLE_IDS = {}
 
 
 class GenError(Exception):
@@ -419,9 +423,16 @@ def emit_fn(card, repo, out, info, twin=False, assumed_here=False):
     body = clean[bopen:bclose + 1]
     R.reset_counters()
     log = []
-    sig, body = apply_rules(card, sig, body, log)
+    try:
+        sig, body = apply_rules(card, sig, body, log)
+    except (AnchorLost, GenError) as ex:
+        if card.mode == 'assumed':
+            raise
+        UNREADABLE_IDS[card.id] = 'rewrite rules: %s' % ex
+        card.hints = []
+        card.loops = {}
     body = squeeze(body)
-    if card.opts.get('awaitinv'):
+    if card.opts.get('awaitinv') and card.id not in UNREADABLE_IDS:
         body, n_aw = insert_await_asserts(body, card.opts['awaitinv'], card.opts.get('awaitskip'))
         log.append({'rule': 'X12', 'match': '%d await points: assert(%s)' % (n_aw, card.opts['awaitinv'])})
     if card.opts.get('rename'):
@@ -454,6 +465,10 @@ def emit_fn(card, repo, out, info, twin=False, assumed_here=False):
     rec['degraded'] = degraded
     if degraded:
         DEGRADED_IDS[fid] = degraded
+    if fid in UNREADABLE_IDS and card.mode != 'assumed':
+        rec['degraded'] = degraded = 'body outside the rule set: ' + UNREADABLE_IDS[fid]
+        rec['unreadable'] = True
+        assumed_here = True
     if card.mode == 'assumed' or assumed_here:
         out.add('#[verifier::external_body]', {'fn': fid, 'part': 'attr'})
     if not twin and 'nospinoff' not in card.opts:
